@@ -29,14 +29,16 @@ TAG_UNIVERSE = {
 OPS = ["o1", "o2", "o3", "o4"]
 KEYSEQ = {o: ["k%s%s" % (o[1:], sfx) for sfx in ("", "b", "c", "d")] for o in OPS}
 GENVALS = ["o1", "o2", "o3"]
-DEV = ["L12", "L13hold", "L13rev", "NOHOOK", "VALKEYS"]   # deviations of the CURRENT tree (strict-lane reference = code's behaviour)
+DEV = ["L13hold", "L13rev", "NOHOOK", "VALKEYS"]   # deviations of the CURRENT tree (strict-lane reference = code's behaviour)
 H0, EP0, SEQ0, LZN0, UNBH = 2, 1, 3, 100, 10
-ASSETS = ["lst", "lst2"]
+ASSETS = ["lst", "lst2"]          # LST assets used by the noise generator
+ALL_ASSETS = ["lst", "lst2", "nst"]  # the world also has the native-restaking asset (NST, 18 decimals)
 WORKERS = int(os.environ.get("VERIF_CHAIN_PROCS", "6"))
 
 
 def base_cfg(unb):
-    return {"nOperators": 4, "nStakers": 4, "validators": [1, 2, 3], "assets": ASSETS, "decimals": [6, 8], "prices": ["1", "2"],
+    # stakers: s1..s3 client-chain stakers / native delegators, s4 s5 EOAs that play AVS contracts, s6 gateway (last)
+    return {"nOperators": 4, "nStakers": 6, "validators": [1, 2, 3], "assets": ALL_ASSETS, "decimals": [6, 8, 18], "prices": ["1", "2", "1"],
             "epochsUnbond": unb, "maxVals": 10, "oracleStart": 3, "oracleInterval": 6, "slashWindow": 4, "epochSeconds": 60}
 
 
@@ -55,7 +57,14 @@ def prologue():
     for s in ("s1", "s2", "s3"):
         b1.append({"k": "dep", "s": s, "a": "lst", "x": "9000000000"})
         b1.append({"k": "dep", "s": s, "a": "lst2", "x": "900000000000"})
+    E18 = 10 ** 18
+    for i, s in enumerate(("s1", "s2")):      # two NST stakers -> oracle staker list with 2 entries
+        b1.append({"k": "depnst", "s": s, "key": f"v{i}a", "x": str(32 * E18)})
+    b1.append({"k": "depnst", "s": "s1", "key": "v0b", "x": str(32 * E18)})
     b2, n = [], 0
+    for i, s in enumerate(("s1", "s2")):
+        for j, o in enumerate(("o1", "o2")):
+            b2.append({"k": "del", "s": s, "a": "nst", "o": o, "x": str((3 + i + 2 * j) * E18), "n": 50 + 2 * i + j})
     for s in ("s1", "s2", "s3"):
         for o in OPS:
             n += 1
@@ -78,7 +87,7 @@ class Noise:
     def some(self, h, vals_before):
         r, out = self.rng, []
         for _ in range(r.choice([0, 1, 1, 2, 3])):
-            k = r.choice(["dep", "del", "wd", "send", "ndel", "assoc", "dissoc", "del", "dep", "wdfail", "delfail"])
+            k = r.choice(["dep", "del", "wd", "send", "ndel", "assoc", "dissoc", "del", "dep", "wdfail", "delfail", "depnst", "wdnst", "delnst"])
             a = r.choice(ASSETS)
             o = r.choice(OPS)
             self.lz += 1
@@ -96,6 +105,13 @@ class Noise:
                 out.append({"k": "send", "s": "s2", "o": r.choice(["s3", "o1", "o4"]), "x": str(r.choice([1, 12345, 10 ** 15]))})
             elif k == "ndel":
                 out.append({"k": "ndel", "s": "s2", "o": o, "x": str(r.choice([10 ** 15, 3 * 10 ** 17]))})
+            elif k == "depnst":
+                self.nv = getattr(self, "nv", 0) + 1
+                out.append({"k": "depnst", "s": r.choice(["s2", "s3"]), "key": f"n{self.nv}", "x": str(32 * 10 ** 18)})
+            elif k == "wdnst":
+                out.append({"k": "wdnst", "s": "s2", "key": "v1a", "x": str(r.choice([1, 2]) * 10 ** 18)})
+            elif k == "delnst":
+                out.append({"k": "del", "s": "s2", "a": "nst", "o": o, "x": str(r.choice([1, 10 ** 18])), "n": self.lz})
             elif k == "assoc":
                 out.append({"k": "assoc", "s": "s3", "o": o})
             elif k == "dissoc":
@@ -116,7 +132,7 @@ class Noise:
         r = self.rng
         if based not in self.round_plan:
             plan = {}
-            for f in (1, 2):
+            for f in (1, 2, 3):
                 plan[f] = {"mode": r.choice(["ok", "ok", "ok-spread", "fail-one", "fail-split", "none", "ok-second"]),
                            "price": str(r.choice([2, 3, 17, 100])), "det": str(r.randint(5, 90)), "sent": {}}
             self.round_plan[based] = plan
@@ -185,7 +201,7 @@ def extra_scripts(seed, unb):
     evidence, slashing of operators with pending undelegations, unjail"""
     rng = random.Random(seed * 7 + 1)
     out = []
-    for variant in ("downtime", "evidence"):
+    for variant in ("downtime", "evidence", "avs"):
         cfg = base_cfg(unb)
         blocks = prologue()
         noise = Noise(rng, cfg)
@@ -194,7 +210,7 @@ def extra_scripts(seed, unb):
         for i in range(n):
             h = H0 + i + 1
             txs, b = [], {}
-            if i == 0:
+            if i == 0 and variant != "avs":
                 txs += [{"k": "nundel", "s": "s1", "o": "o3", "x": "1000000000000000"},
                         {"k": "undel", "s": "s2", "a": "lst", "o": "o3", "x": "1234567", "n": 101},
                         {"k": "optin", "o": "o4", "key": "k4"}]
@@ -206,8 +222,28 @@ def extra_scripts(seed, unb):
                 b["evidence"] = [{"key": "k2", "h": h - 2}]
             if variant == "evidence" and i == 8:
                 b["evidence"] = [{"key": "k3", "h": h - 1}]
+            ee = i % 4 == 1
+            if variant == "avs":
+                # two AVSs played by the EOAs s4 / s5, operators o1 o2 opted into both, three tasks, two-phase results;
+                # tasks start in the epoch after their creation (4), phase one until epoch 5, phase two in epoch 6 (i = 9..11);
+                # the statistics hook at the end of epoch 6 (i = 12) groups the results by (task id, contract)
+                ee = i in (1, 2, 5, 6, 8, 12, 16)
+                ops2, tasks = ("o1", "o2"), (("s4", 1), ("s4", 2), ("s5", 1))
+                if i == 0:
+                    txs = [{"k": "avsreg", "s": "s4", "a": "lst,lst2"}, {"k": "avsreg", "s": "s5", "a": "lst2,nst"}]
+                    txs += [{"k": "avsopt", "s": c, "o": o} for c in ("s4", "s5") for o in ops2]
+                    txs += [{"k": "avsbls", "s": "s4", "o": o} for o in ops2]
+                    txs += [{"k": "avsopt", "s": "s4", "o": "o1"}, {"k": "avstask", "s": "s4", "n": 9}]   # both fail
+                elif i == 3:
+                    txs = [{"k": "avstask", "s": c, "n": t} for c, t in tasks]
+                elif i == 4:
+                    txs = [{"k": "avsres", "o": o, "s": c, "n": t, "d": "1"} for c, t in tasks for o in ops2]
+                    txs.append({"k": "avsres", "o": "o3", "s": "s4", "n": 1, "d": "1"})   # no BLS key: fails
+                elif i == 9:
+                    txs = [{"k": "avsres", "o": o, "s": c, "n": t, "d": "2"} for c, t in tasks for o in ops2 if not (o == "o2" and c == "s5")]
+                    txs.append({"k": "avsres", "o": "o1", "s": "s4", "n": 1, "d": "1"})   # duplicate phase one: fails
             txs += noise.some(h, vals)
-            b.update({"dt": 60 if i % 4 == 1 else 1, "txs": txs})
+            b.update({"dt": 60 if ee else 1, "txs": txs})
             blocks.append(b)
         out.append({"id": f"x-{variant}-{seed}", "cfg": cfg, "blocks": blocks})
     return out
@@ -404,6 +440,13 @@ def _run(tier, seed, harness, d, only_scripts=None):
                         counts["export-with-" + q] += 1
             elif ln["ev"] == "import":
                 counts["import:" + ("ok" if ln.get("ok") else "fail")] += 1
+    # native-token GetStakerSpecifiedAssetInfo (map loop; query path only): same prefix => same answer, informational
+    qseen = {}
+    for ln in all_lines:
+        if ln.get("ev") == "obs" and ln.get("role") != "imp" and "query" in ln:
+            counts["native-query-evaluations"] += 1
+            if qseen.setdefault(ln["prefix"], ln["query"]) != ln["query"]:
+                counts["native-query-differs"] += 1
     # oracle coverage from the original runs
     for sc, b, strict, lines in results:
         prev = None
